@@ -76,7 +76,7 @@ func vCheckDecoded(m *Message, rawLen int) {
 func verifC12Raw() {
 	s := 4
 	if vTier() > 0 {
-		s = 7
+		s = 6
 	}
 	n := vInt(0, 12+s)
 	b := vBytes(n)
@@ -100,7 +100,7 @@ func verifC12Raw() {
 func verifC12Names() {
 	s := 10
 	if vTier() > 0 {
-		s = 12
+		s = 11
 	}
 	var hdr []byte
 	if vBool() {
@@ -126,7 +126,7 @@ func verifC12RData() {
 	typ := types[vInt(0, len(types)-1)]
 	k := 5
 	if vTier() > 0 {
-		k = 8
+		k = 6
 	}
 	rd := vBytes(vInt(0, k))
 	hdr := []byte{0, 0, 0x81, 0x80, 0, 0, 0, 1, 0, 0, 0, 0}
